@@ -165,9 +165,7 @@ def expected_call(lib, call, serials):
     # parameters beyond this variant's arity take the library's own default values
     for p in g["params"][v["nparams"]:]:
         if "default" in p:
-            d = p["default"]
-            T = p["T"]
-            args[p["name"]] = (d == "true") if ir.TYPES[T]["k"] == "b" else (float(d) if ir.TYPES[T]["k"] == "r" else int(d))
+            args[p["name"]] = ir.default_value(p)
     # documented conversions on the way in (C01): applied by the caller-specific layer (see drivers)
     this = None
     if f.get("cls") and not f.get("static") and not f.get("ctor") and not f.get("dtor"):
